@@ -277,10 +277,51 @@ macro_rules! check_event {
             if got_p != want_p {
                 return Verdict::fail(format!("prefixes() at {:?} of element #{} <{}>: expected {:?}, got {:?}", want_kind, id, name, want_p, got_p));
             }
-        } else if let Some(res) = $resolved {
-            if got_res(res) != Res::Unbound {
-                return Verdict::fail(format!("read_resolved_event returned {:?} for a non-element event", res));
+        } else {
+            if let Some(res) = $resolved {
+                if got_res(res) != Res::Unbound {
+                    return Verdict::fail(format!("read_resolved_event returned {:?} for a non-element event", res));
+                }
             }
+            // a text / comment / CDATA / PI / declaration / DOCTYPE event: the bindings in force are those
+            // of the innermost element that is open around it (none at top level) - declarations of
+            // elements that have ended before it no longer apply
+            let j = o.idx - 1;
+            let enclosing = o.r.elems.iter().enumerate().filter(|(_, e)| e.open_idx < j && j < e.close_idx).max_by_key(|(_, e)| e.depth).map(|(i, _)| i);
+            let base: Scope = {
+                let mut s = Scope::new();
+                s.insert("xml".into(), XML_NS.into());
+                s.insert("xmlns".into(), XMLNS_NS.into());
+                s
+            };
+            let scope = match enclosing {
+                Some(i) => &o.scopes[i],
+                None => &base,
+            };
+            for probe in ["x", "p:x", "q:x", "i:x", "r:x", "xml:x"] {
+                let want = want_res(scope, probe, false);
+                let got = got_res(&$r.resolve_element(QName(probe.as_bytes())).0);
+                if got != want {
+                    return Verdict::fail(format!("resolve_element({:?}) at the {:?} event (flat item {}) inside element {:?}: expected {:?}, got {:?}", probe, want_kind, j, enclosing.map(|i| o.r.elems[i].name.clone()), want, got));
+                }
+            }
+            let got_p: BTreeSet<(String, String)> = $r
+                .prefixes()
+                .map(|(p, ns)| {
+                    (
+                        match p {
+                            PrefixDeclaration::Default => String::new(),
+                            PrefixDeclaration::Named(n) => String::from_utf8_lossy(n).into_owned(),
+                        },
+                        String::from_utf8_lossy(ns.as_ref()).into_owned(),
+                    )
+                })
+                .collect();
+            let want_p = want_prefixes(scope);
+            if got_p != want_p {
+                return Verdict::fail(format!("prefixes() at the {:?} event (flat item {}) inside element {:?}: expected {:?}, got {:?}", want_kind, j, enclosing.map(|i| o.r.elems[i].name.clone()), want_p, got_p));
+            }
+            o.checked += 1;
         }
         (want_kind, id_opt)
     }};
@@ -309,6 +350,17 @@ pub fn check(c: &Case) -> Verdict {
                     match $read_resolved {
                         Ok((res, ev)) => {
                             if matches!(ev, Event::Eof) {
+                                // every element has ended: no declaration applies any more
+                                let left = $r.prefixes().count();
+                                if left != 0 {
+                                    return Verdict::fail(format!("at Eof prefixes() still lists {} binding(s) | doc {:?}", left, B::show(&data)));
+                                }
+                                for probe in ["p:x", "q:x", "i:x", "r:x"] {
+                                    let got = got_res(&$r.resolve_element(QName(probe.as_bytes())).0);
+                                    if !matches!(got, Res::Unknown(_)) {
+                                        return Verdict::fail(format!("at Eof resolve_element({:?}) gives {:?} | doc {:?}", probe, got, B::show(&data)));
+                                    }
+                                }
                                 break;
                             }
                             check_event!(o, $r, &ev, Some(&res))
@@ -319,6 +371,17 @@ pub fn check(c: &Case) -> Verdict {
                     match $read_plain {
                         Ok(ev) => {
                             if matches!(ev, Event::Eof) {
+                                // every element has ended: no declaration applies any more
+                                let left = $r.prefixes().count();
+                                if left != 0 {
+                                    return Verdict::fail(format!("at Eof prefixes() still lists {} binding(s) | doc {:?}", left, B::show(&data)));
+                                }
+                                for probe in ["p:x", "q:x", "i:x", "r:x"] {
+                                    let got = got_res(&$r.resolve_element(QName(probe.as_bytes())).0);
+                                    if !matches!(got, Res::Unknown(_)) {
+                                        return Verdict::fail(format!("at Eof resolve_element({:?}) gives {:?} | doc {:?}", probe, got, B::show(&data)));
+                                    }
+                                }
                                 break;
                             }
                             check_event!(o, $r, &ev, None::<&ResolveResult>)
